@@ -1,3 +1,15 @@
 from . import has_class
-CFG = {"harness": ["v1", "v2"], "functional": ["C11.universe"], "required_classes": ["universe", "histories", "split-load", "incremental-load", "dependency-not-requested", "bad-requests"],
-       "rule": "wip", "manifest": {"text": "wip", "note": "wip"}}
+
+CFG = {
+    "harness": ["v1", "v2"],
+    "functional": ["C11.universe"],
+    "required_classes": ["universe", "histories", "split-load", "incremental-load", "dependency-not-requested", "bad-requests"],
+    "rule": "generated programs of 3-6 packages with an import DAG; a random non-empty request set; 5 (thorough: 24) histories per program: a random order and partition of the request set, loaded either all before the universe is made or first group -> universe -> incremental additions (v2: LoadPackages*/NewUniverse/LoadPackagesTo on a module; v1: AddDir/FindTypes/AddDirectoryTo on a scratch GOPATH); all universes must be equal and equal to the model's; objects held before an incremental load must be the ones later lookups return and completed entries must not change; reported inputs = sorted request set; requesting a missing directory, a file that does not parse and an empty directory must fail; non-trivial = input longer than 12 characters",
+    "exhaustive": [],
+    "modelled": "the request bookkeeping (requested vs dependency packages: full scan vs stub + reachable types), through the universe model's build; packages.Load / go/build are exercised, not modelled",
+    "assumptions": ["one universe per parser (v2)"],
+    "manifest": {
+        "text": "Coq theorems: the universe built from a request set is a function of the set of requested packages (the model's build over any two orders of the same requested packages yields equal canonical dumps under the stability lemmas), keys keep their objects and completed entries never change under further loading; tied to /repo each run by loading every generated module under several orders and partitions with the real v1 and v2 loaders, comparing all resulting universes with each other and with the extracted model, checking pointer stability across incremental loads and the error cases",
+        "note": "partial: history independence of the REAL loaders is established by the differential histories (every history must produce the model's universe); packages.Load, go/build and the filesystem are exercised, not modelled; trusted: Coq kernel, extraction, OCaml driver, Go harness",
+    },
+}
